@@ -48,7 +48,7 @@ fn mode_class(mode: &str) -> &str {
 
 pub fn run_case(case: &mut Case) {
     let mut rng = case.rng(0);
-    LONG_ITEM_MAX.with(|m| m.set(if case.thorough { 4096 } else { 1200 }));
+    LONG_ITEM_MAX.with(|m| m.set(if case.thorough { 2048 } else { 1200 }));
     let spec = {
         let o = opts();
         let depth = o.cmd_depth;
